@@ -359,6 +359,39 @@ func VfC13_PoolIndependence() {
 	}
 }
 
+// VfC13_ConcurrentUse: the filter of one backend connection is used by that connection's writer
+// (compressing the value of a SET) and by its reader (decompressing the reply to an earlier GET) at
+// the same time; their accesses to the filter object may interleave at every load and store.
+// Whatever the interleaving, the reply reads back as the value that was stored and the write
+// carries its own value, plain or framed.
+func VfC13_ConcurrentUse() {
+	vfInstallStub()
+	vfStubFixed = true
+	cfg := vfCompressCfg(true, 10)
+	f0 := newCompressFilter(cfg) // another connection, earlier: produced the frame that is read back now
+	o2 := nd.Bytes("stored", 31)
+	nd.Assume(!(o2[0] == '(' && o2[1] == 'P' && o2[2] == '$'))
+	w0 := newSimpleRequest(newArray(*newBulkString("set"), *newBulkString("k2"), *newBulkBytes(append([]byte(nil), o2...))))
+	f0.Do("set", w0)
+	frame2 := append([]byte(nil), w0.Body().Array[2].Text...)
+	nd.Assume(vfIsFrameOf(frame2, o2)) // the stored value was framed
+	f := newCompressFilter(cfg)
+	o1 := nd.Bytes("written", 31)
+	nd.Assume(!(o1[0] == '(' && o1[1] == 'P' && o1[2] == '$'))
+	w := newSimpleRequest(newArray(*newBulkString("set"), *newBulkString("k1"), *newBulkBytes(append([]byte(nil), o1...))))
+	rd := newSimpleRequest(newArray(*newBulkString("get"), *newBulkString("k2")))
+	f.Do("get", rd) // the GET was sent earlier; its reply arrives now
+	nd.PanicLabel("compress-filter")
+	nd.Watch(f)
+	go func() { f.Do("set", w) }()
+	go func() { rd.SetResponse(newBulkBytes(frame2)) }()
+	nd.Quiesce()
+	nd.Assert(vfDone(rd.done) && vfBytesEq(rd.Response().Text, o2), "a reply decompressed while the same connection compresses a write reads back as the stored value")
+	now := w.Body().Array[2].Text
+	nd.Assert(vfBytesEq(now, o1) || vfIsFrameOf(now, o1), "a write compressed while the same connection decompresses a reply carries its own value")
+	nd.Cover("used-concurrently")
+}
+
 // VfC13_Decompress: Decompress on arbitrary reply values: text that is not a frame the compressor
 // produced (wrong magic, unknown algorithm byte, corrupt stream, short header) is left untouched;
 // arrays are handled element-wise; never a crash.
